@@ -97,6 +97,32 @@ Theorem c09_after_update :
 Proof. exact after_update_always. Qed.
 Print Assumptions c09_after_update.
 
+(* The same in the words of the property, for replacements that do not overlap
+   each other: thread u's set_policy(p) started when no other replacement was in
+   flight (quiescent l0), none started while it ran (lu) nor after it returned
+   (UpRet u p; l1', l2); then an evaluation started after that return yields p's
+   decision — "once the replacement call has returned, every evaluation started
+   afterwards returns the new policy's decision". *)
+Theorem c09_after_update_seq :
+  forall (policy tag env decision : Type) (tag_of : policy -> option tag)
+         (compile_ok : policy -> bool) (decide : policy -> env -> decision)
+         (tag_eqb : tag -> tag -> bool) (env_eqb : env -> env -> bool) (has_cache : bool),
+    (forall a b, tag_eqb a b = true -> a = b) ->
+    (forall a b, env_eqb a b = true -> a = b) ->
+    (forall p q k, tag_of p = Some k -> tag_of q = Some k -> p = q) ->
+    forall (p0 : policy) (progs : nat -> list (op policy env)) c,
+      sreach policy tag env decision tag_of compile_ok decide tag_eqb env_eqb has_cache p0 progs c ->
+      forall l3 t e d l2 e' l1' u p lu l0,
+        s_log (sh c) = l3 ++ EvRet t e d :: l2 ++ EvStart t e' :: l1' ++ UpRet u p :: lu ++ UpStart u p :: l0 ->
+        no_start policy env decision t l2 = true ->
+        no_upstart policy env decision l2 = true ->
+        no_upstart policy env decision l1' = true ->
+        no_upstart policy env decision lu = true ->
+        quiescent policy env decision l0 = true ->
+        d = decide p e.
+Proof. exact after_update_seq. Qed.
+Print Assumptions c09_after_update_seq.
+
 (* No stale entry, in the reading of DESIGN.md 5/C09: an in-flight evaluation may
    still store its result under the tag it read (possibly the old one), but an
    entry whose tag and decision come from different policies never exists ... *)
@@ -207,4 +233,18 @@ Proof.
   exact (c09_snapshot nat nat nat (nat * nat) (ntag_of []) (ncompile_ok []) ndecide Nat.eqb Nat.eqb true
            nat_eqb_sound nat_eqb_sound (ntag_inj []) 0 (nprogs ex_progs) ex_final ex_reach
            [EvRet 2 7 (1, 7); EvStart 2 7] 1 7 (0, 7) [UpRet 0 1; Pub 0 1; UpStart 0 1] 7 [] L eq_refl).
+Qed.
+
+(* c09_after_update_seq applied to the same run: set_policy(1) of thread 0 was
+   overlapped by thread 1's evaluation (EvStart 1 7 before it, EvRet 1 7 after it) *)
+Example c09_example_after_update_seq :
+  forall d,
+    s_log (sh ex_final) =
+      [] ++ EvRet 2 7 d :: [] ++ EvStart 2 7 :: [EvRet 1 7 (0, 7)] ++ UpRet 0 1 :: [Pub 0 1] ++ UpStart 0 1 :: [EvStart 1 7] ->
+    d = ndecide 1 7.
+Proof.
+  intros d H.
+  exact (c09_after_update_seq nat nat nat (nat * nat) (ntag_of []) (ncompile_ok []) ndecide Nat.eqb Nat.eqb true
+           nat_eqb_sound nat_eqb_sound (ntag_inj []) 0 (nprogs ex_progs) ex_final ex_reach
+           [] 2 7 d [] 7 [EvRet 1 7 (0, 7)] 0 1 [Pub 0 1] [EvStart 1 7] H eq_refl eq_refl eq_refl eq_refl eq_refl).
 Qed.
